@@ -274,6 +274,7 @@ pub trait TypedIterable {
         }
         let offset = self.offset().ok_or(DSError::VoidRecord)?;
         debug_assert!(!self.parsed_packet().maybe_compressed);
+        self.parsed_packet_mut().cached = None;
         let current_name_len = Compress::raw_name_len(self.name_slice());
         let shift = new_name_len as isize - current_name_len as isize;
         self.resize_rr(shift)?;
@@ -314,6 +315,7 @@ pub trait TypedIterable {
         self.set_offset_next(offset);
         self.invalidate();
         let parsed_packet = self.parsed_packet_mut();
+        parsed_packet.cached = None;
         let rrcount = parsed_packet.rrcount_dec(section)?;
         if rrcount <= 0 {
             let offset = match section {
